@@ -46,7 +46,15 @@ pub enum FStep {
     Start { what: Create, direct: bool, on: u16 },
     Poll { op: u16 },
     DropOp { op: u16 },
-    Complete { op: u16, more: bool, fail: bool },
+    Complete {
+        op: u16,
+        more: bool,
+        fail: bool,
+        /// The kernel does not know the opcode (-EINVAL, as an older kernel
+        /// answers IORING_OP_PIPE): a10 falls back to the system call.
+        #[serde(default)]
+        unsupported: bool,
+    },
     RingPoll,
     DropFd { fd: u16 },
     /// `AsyncFd::close()`: the returned future is driven like any operation.
@@ -110,6 +118,8 @@ struct FOp {
     want_direct: bool,
     /// AsyncFd it borrows.
     borrows: Option<usize>,
+    /// The kernel refused the opcode; the result comes from the system call.
+    fallback: bool,
 }
 
 struct Slot {
@@ -360,7 +370,7 @@ impl<'c> Exec<'c> {
         if let Some(i) = borrows {
             self.fds[i].borrowed += 1;
         }
-        self.ops.push(FOp { what, fut: Some(fut), user_data: 0, serial: None, posted: Vec::new(), finished_posting: false, done: false, want_direct, borrows });
+        self.ops.push(FOp { what, fut: Some(fut), user_data: 0, serial: None, posted: Vec::new(), finished_posting: false, done: false, want_direct, borrows, fallback: false });
     }
 
     fn poll_op(&mut self, i: usize) {
@@ -412,6 +422,21 @@ impl<'c> Exec<'c> {
                 }
                 let want = self.ops[i].posted.remove(0);
                 match (res, want) {
+                    (Ok(fds), Err(errno)) if errno == libc::EINVAL && self.ops[i].fallback => {
+                        // The system call fall-back: exactly the pair pipe2(2)
+                        // returned, as regular descriptors whatever kind was asked for.
+                        let pairs = crate::shims::take_pipe2();
+                        self.classes.push("pipe2-fallback");
+                        if pairs.len() != 1 || fds.len() != 2 {
+                            self.fail("fallback-count", format!("{what}: fall-back made {} pipe2(2) calls and returned {} AsyncFds", pairs.len(), fds.len()));
+                        }
+                        let pair = pairs.first().copied().unwrap_or([-1, -1]);
+                        for (k, fd) in fds.into_iter().enumerate() {
+                            let d = Desc::Regular(pair[k.min(1)]);
+                            self.ledger.insert(d, Entry { closes: vec![], wrapped: None, abandoned: false, released: false });
+                            self.adopt(fd, d, &format!("{what} (pipe2 fall-back)"));
+                        }
+                    }
                     (Ok(fds), Ok(descs)) => {
                         if fds.len() != descs.len() {
                             self.fail("wrong-count", format!("{what}: {} AsyncFds for {} descriptors", fds.len(), descs.len()));
@@ -486,7 +511,7 @@ impl<'c> Exec<'c> {
         }
     }
 
-    fn kernel_complete(&mut self, i: usize, more: bool, fail: bool) {
+    fn kernel_complete(&mut self, i: usize, more: bool, fail: bool, unsupported: bool) {
         let Some(serial) = self.ops[i].serial else { return };
         let mut s = sim::sim();
         let Some(req) = s.the_ring().req(serial).cloned() else { return };
@@ -500,6 +525,16 @@ impl<'c> Exec<'c> {
         let mut new_entry = |ledger: &mut BTreeMap<Desc, Entry>, d: Desc| {
             ledger.insert(d, Entry { closes: vec![], wrapped: None, abandoned, released: false });
         };
+        if unsupported && sqe.opcode == abi::OP_PIPE {
+            // An older kernel: unknown opcode. a10's fall-back is pipe2(2),
+            // which can only create regular descriptors.
+            crate::shims::take_pipe2();
+            s.the_ring().complete(serial, -libc::EINVAL, 0, false);
+            self.ops[i].posted.push(Err(libc::EINVAL));
+            self.ops[i].finished_posting = true;
+            self.ops[i].fallback = true;
+            return;
+        }
         if fail {
             let e = if sqe.opcode == abi::OP_CLOSE { libc::EBADF } else { libc::EMFILE };
             s.the_ring().complete(serial, -e, 0, false);
@@ -686,7 +721,7 @@ fn fstep() -> impl Strategy<Value = FStep> {
         6 => (what, any::<bool>(), any::<u16>()).prop_map(|(what, direct, on)| FStep::Start { what, direct, on }),
         8 => any::<u16>().prop_map(|op| FStep::Poll { op }),
         2 => any::<u16>().prop_map(|op| FStep::DropOp { op }),
-        7 => (any::<u16>(), any::<bool>(), proptest::bool::weighted(0.1)).prop_map(|(op, more, fail)| FStep::Complete { op, more, fail }),
+        7 => (any::<u16>(), any::<bool>(), proptest::bool::weighted(0.1), proptest::bool::weighted(0.15)).prop_map(|(op, more, fail, unsupported)| FStep::Complete { op, more, fail, unsupported }),
         6 => Just(FStep::RingPoll),
         5 => any::<u16>().prop_map(|fd| FStep::DropFd { fd }),
         3 => any::<u16>().prop_map(|fd| FStep::CloseFd { fd }),
@@ -766,12 +801,12 @@ fn run_case(case: &Case, ctx: &mut Ctx) {
                     exec.drop_fut(i);
                 }
             }
-            FStep::Complete { op, more, fail } => {
+            FStep::Complete { op, more, fail, unsupported } => {
                 let c: Vec<usize> = exec.ops.iter().enumerate().filter(|(_, o)| o.serial.is_some() && !o.finished_posting).map(|(i, _)| i).collect();
                 if c.is_empty() {
                     exec.ctx.skipped_steps += 1;
                 } else {
-                    exec.kernel_complete(c[pick_index(*op, c.len())], *more, *fail);
+                    exec.kernel_complete(c[pick_index(*op, c.len())], *more, *fail, *unsupported);
                 }
             }
             FStep::RingPoll => {
@@ -807,7 +842,7 @@ fn run_case(case: &Case, ctx: &mut Ctx) {
                         e.released = true;
                     }
                     exec.classes.push("explicit-close");
-                    exec.ops.push(FOp { what: Create::New, fut: Some(Fut::Close(Box::pin(fut), desc)), user_data: 0, serial: None, posted: Vec::new(), finished_posting: false, done: false, want_direct: false, borrows: None });
+                    exec.ops.push(FOp { what: Create::New, fut: Some(Fut::Close(Box::pin(fut), desc)), user_data: 0, serial: None, posted: Vec::new(), finished_posting: false, done: false, want_direct: false, borrows: None , fallback: false});
                 }
             }
         }
